@@ -356,7 +356,13 @@ class PyvalColorizer:
             # is not relevant to annotations.
             self._output(str(pyval), self.CONST_TAG, state, link=True)
         elif pyvaltype is int or pyvaltype is float or pyvaltype is complex:
-            self._output(str(pyval), self.NUMBER_TAG, state)
+            try:
+                text = str(pyval)
+            except ValueError:
+                # An integer with more digits than the interpreter converts to decimal 
+                # (see sys.set_int_max_str_digits): there is no such limit for the hexadecimal form.
+                text = hex(pyval)
+            self._output(text, self.NUMBER_TAG, state)
         elif pyvaltype is str:
             self._colorize_str(pyval, state, '', escape_fcn=_str_escape)
         elif pyvaltype is bytes:
